@@ -79,7 +79,7 @@ def cgauleg_module():
     return M
 
 
-def cosmolib_module(gauleg_tables=None):
+def cosmolib_module(gauleg_tables=None, extra_intrinsics=None):
     """model of esutil.cosmology._cosmolib: class cosmo whose methods are the C wrappers.
     gauleg_tables: optional {npts: (x list, w list)} to replace gauleg's output by given
     (e.g. symbolic) tables -- used to compare against reference formulas with the
@@ -96,6 +96,8 @@ def cosmolib_module(gauleg_tables=None):
                 xp.region.store(xp.off + i, xs[i])
                 wp.region.store(wp.off + i, ws[i])
         intr["gauleg"] = i_gauleg
+    if extra_intrinsics:
+        intr.update(extra_intrinsics)
 
     class cosmo(object):
         TUS = (tu_w, tu_l)
